@@ -317,8 +317,8 @@ func init() {
 		},
 		Strata: []*fw.Stratum{
 			{Name: "exhaustive-depth3", Quick: n, Thorough: n, Exhaustive: true, Run: runC03Exhaustive},
-			{Name: "random-assembled", Quick: 100000, Thorough: 1000000, Run: runC03Random},
-			{Name: "parsed-trees", Quick: 10000, Thorough: 100000, Run: runC03Parsed},
+			{Name: "random-assembled", Quick: 150000, Thorough: 1000000, Run: runC03Random},
+			{Name: "parsed-trees", Quick: 30000, Thorough: 200000, Run: runC03Parsed},
 		},
 	})
 }
